@@ -39,7 +39,7 @@ Lemma expr_vals_sound T s e vs : atyped T s -> expr_vals T e = Some vs -> In (ev
 Proof.
   intros HT H. unfold expr_vals in H.
   destruct (valuations all_vars T (nodup string_dec (vars_of e))) as [envs|] eqn:Ev; [|discriminate].
-  destruct (Nat.leb (List.length envs) maxv); [|discriminate].
+  destruct (Nat.leb (List.length envs) maxenv); [|discriminate].
   destruct (forallb small _); [|discriminate]. injection H as <-.
   apply dedup_In.
   apply (eval_set_sound all_vars T s e).
